@@ -162,6 +162,9 @@ def op_pool(rnd):
         "inplace": lambda: Outer().with_inner(xs=[5], _inplace=True),
         "aborted_post_copy": lambda: frag.with_n(13).with_n(14),
         "aborted_bad_type": lambda: base.with_inner(xs="notalist"),
+        # copies cut short INSIDE the guarded region: an argument that cannot be deep-copied, a copy hook raising while a frozen value is copied for mutation
+        "aborted_uncopyable_arg": lambda: Outer(d={"a": threading.Lock()}),
+        "aborted_uncopyable_protect": lambda: mu.protect_via_deepcopy([sys, {"l": threading.Lock()}]),
         "aborted_transform": lambda: base.transform_inner(lambda i: 1 / 0),
     }
     return ops
@@ -205,8 +208,10 @@ def run_faults(job):
         tr = sched.LineTracer(fault_at=n)
         r = tr.run(ops[name])
         after_abort = table_state()
-        # a later ordinary copy must still work and leave the table as found
+        # later copies (an ordinary one and one of a value holding modules) must still work in this thread and leave the table as found
         r2 = sched.LineTracer().run(ops["deepcopy_depth3"])
+        if r2[0] == "ok":
+            r2 = sched.LineTracer().run(ops["protect_module_dict"])
         out.append({"kind": "fault", "table0": table0, "op": name, "line_no": n, "of": total, "loc": list(tr.fault_loc or ("", "", 0, "")),
                     "result": r[0], "final_table": after_abort, "later_ok": r2[0] == "ok", "later_table": table_state()})
     set_table0("absent")
